@@ -1029,19 +1029,12 @@ def flag_true_sites(fn, switch_site):
     p = op_place(t["discr"])
     if p is None:
         return None
-    local = p[0]
-    # follow copies and one negation (the caller decides what a negation means for it)
-    ds = [d for d in fn.defs().get(local, []) if d[1] == "assign"]
-    for _ in range(3):
-        if len(ds) == 1 and ds[0][2]["rv"]["k"] == "use" and op_place(ds[0][2]["rv"]["op"]) is not None and not op_place(ds[0][2]["rv"]["op"])[1]:
-            local = op_place(ds[0][2]["rv"]["op"])[0]
-        elif len(ds) == 1 and ds[0][2]["rv"]["k"] == "un" and ds[0][2]["rv"]["op"] == "Not" and op_place(ds[0][2]["rv"]["a"]) is not None and not op_place(ds[0][2]["rv"]["a"])[1]:
-            local = op_place(ds[0][2]["rv"]["a"])[0]
-        else:
-            break
-        ds = [d for d in fn.defs().get(local, []) if d[1] == "assign"]
+    # look through copies, negations and fields of values built in this body (`(Poll::Ready(x) as Ready).0`)
+    local, neg, ds = _flag_defs(fn, p[0])
     trues, falses = [], []
     for site, kind, s in ds:
+        if kind != "assign":
+            return None
         rv = s["rv"]
         if rv["k"] == "use" and rv["op"].get("k") == "const" and rv["op"].get("val") in ("true", "false"):
             (trues if rv["op"]["val"] == "true" else falses).append(site)
@@ -1049,7 +1042,8 @@ def flag_true_sites(fn, switch_site):
             return None
     if not trues and not falses:
         return None
-    return trues, falses
+    # in terms of the switch's own discriminant: an odd number of negations in between swaps the roles
+    return (falses, trues) if neg else (trues, falses)
 
 
 def _flag_defs(fn, local):
